@@ -221,6 +221,9 @@ KANI = [
             functions=["<index::binarysorted::PackIndexes as Iterator>::next (bounded)"], timeout=900),
 ]
 KANI_UNWIND = 6
+# how the in-memory index is fed from the index files (only the live packs) is a unit of C05's spec
+SATELLITES = [("C05", ["indexpack_blob_type", "gi_new_from_index", "gi_new_from_collector"])]
+
 META = {"not_covered": [
     "PackIndexes::next / Index::into_iter under Verus (loop with `break (a, b)`: 'complex break expressions' unsupported) - bounded Kani stand-in only",
     "GlobalIndex::new_from_collector is a unit of C05 (gi_new_from_collector: exactly the live packs are fed)",
